@@ -132,7 +132,7 @@ def run(ctx):
     rnd = random.Random(ctx.seed)
     ctx.trusted += ["tools/translate/gen_elem.py + tools/harness/h_graph.py (ONNX graph -> fexpr)",
                     "coq/Ndx/ElemSem.v (element-wise operator semantics; point-wise: an output element depends on the operand elements at the same broadcast position only)"]
-    ctx.not_discharged += ["masking rule of sorting, matmul, where, mean/var/std and layout functions on nullable input: correspondence runs with payload pairs only (sum/prod/min/max/all/any: theorem, tied to the source by T-src)"]
+    ctx.not_discharged += ["masking rule of sorting, matmul, where, mean/var/std on nullable input: correspondence runs with payload pairs only (sum/prod/min/max/all/any: theorem, tied to the source by T-src; indexing and the one-operand layout functions: naturality theorems of the model's operators)"]
     ctx.static_build()
     specs, out, unsup = elem.gen_table(ctx)
     src = ("From Coq Require Import List Bool String.\nFrom ND Require Import Base.Dtype Ndx.ElemSyntax Ndx.ElemLaws Ndx.MaskRule.\nFrom G Require Import GenElem.\n"
